@@ -175,8 +175,15 @@ def render(case, fields, K):
     return "\n".join(out) + "\n"
 
 
-def model_line(case, sel):
-    parts = [f"T {case['N']}", f"S {sel}"]
+def pure_fn(case):
+    """every closure argument of every `@` is a top-level function used as a value (sub-class of F13 in which
+    Sched/WasmAlloc.v predicts what the WASM runtime really runs)"""
+    return (all(cl["form"] == "fn" and all(r[2] == "direct" for r in cl["rules"]) for cl in case["clos"])
+            and not case["dsp"] and all(q is not None for q, c in case["init"]))
+
+
+def model_line(case, sel, alloc=False):
+    parts = [f"T {case['N']}", f"S {sel}"] + (["A"] if alloc else [])
     if case["init"]:
         parts.append("I " + " ".join(f"{'nan' if q is None else q}:{c}" for q, c in case["init"]))
     for c, cl in enumerate(case["clos"]):
@@ -193,6 +200,9 @@ def parse_model(ans):
     for part in ans.split(" | "):
         toks = part.split(" ")
         be, st = toks[0], toks[1]
+        if be.startswith("alloc"):
+            res[be] = (st, toks[2] if len(toks) > 2 else "")
+            continue
         if st == "ok":
             ex, at = toks[2], None
         elif st == "panic":
@@ -276,7 +286,7 @@ def property_on_output(case, fields, out_vals):
 def pick_form(rng, mode):
     if mode == "closure":
         return "closure"
-    if mode == "fn":
+    if mode in ("fn", "fnpure"):
         return "fn"
     return rng.choice(["fn", "closure"])
 
@@ -286,7 +296,7 @@ def rand_delay(rng, maxp=7):
 
 
 def how(rng, mode):
-    return "lambda" if (mode != "closure" and rng.chance(1, 5)) else "direct"
+    return "lambda" if (mode not in ("closure", "fnpure") and rng.chance(1, 5)) else "direct"
 
 
 def gen_oneshots(rng, mode, N):
@@ -300,7 +310,7 @@ def gen_oneshots(rng, mode, N):
 
 
 def gen_chains(rng, mode, N):
-    ncl = rng.range(1, 30)
+    ncl = rng.range(1, 12 if mode == "fnpure" else 30)
     clos = []
     for c in range(ncl):
         clos.append({"form": pick_form(rng, mode), "rules": [[rand_delay(rng), c, how(rng, mode)]]})
@@ -315,7 +325,7 @@ def gen_chains(rng, mode, N):
 
 
 def gen_spawn(rng, mode, N):
-    ncl = rng.range(2, 40)
+    ncl = rng.range(2, 12 if mode == "fnpure" else 40)
     clos = []
     for c in range(ncl):
         rules = []
@@ -340,6 +350,19 @@ def gen_dsp(rng, mode, N):
         for _ in range(rng.range(1, 3)):
             case["dsp"][t].append([rand_delay(rng, 5), rng.below(ncl), how(rng, mode)])
     return case
+
+
+def gen_sparse_fn(rng, mode, N):
+    """few top-level-function chains / spawns, so that often at most one task is due per sample"""
+    ncl = rng.range(2, 4)
+    clos = []
+    for c in range(ncl):
+        rules = [[4 * rng.range(2, 7) + rng.below(4), c, "direct"]] if rng.chance(3, 4) else []
+        if c > 0 and rng.chance(1, 3):
+            rules.append([4 * rng.range(1, 5), rng.below(c), "direct"])
+        clos.append({"form": "fn", "rules": rules})
+    init = [[4 * (1 + 2 * c) + rng.below(8), c] for c in range(ncl)]
+    return {"N": N, "clos": clos, "init": init, "dsp": {}}
 
 
 def tame(case, rng):
@@ -450,16 +473,18 @@ def run(ck):
                 cases.append(("corpus", json.loads(l)))
                 ncorpus += 1
     quick = ck.tier == "quick"
-    n_valid = 420 if quick else 6000
-    n_bad = 90 if quick else 1200
+    n_valid = 2400 if quick else 20000
+    n_bad = 400 if quick else 3000
     rng = ck.rng.fork("tasksets")
     gens = [("oneshots", gen_oneshots), ("chains", gen_chains), ("spawn", gen_spawn), ("dsp", gen_dsp)]
     if not ck.replay:
         for i in range(n_valid):
             gname, g = gens[i % len(gens)]
-            mode = ["closure", "closure", "fn", "mixed"][(i // len(gens)) % 4]
+            mode = ["closure", "closure", "fn", "mixed", "fnpure"][(i // len(gens)) % 5]
             N = rng.choice([12, 16, 24, 32] if quick else [16, 32, 48, 64])
             cases.append((gname + "/" + mode, tame(g(rng, mode, N), rng)))
+        for i in range(n_valid // 10):
+            cases.append(("sparse/fnpure", gen_sparse_fn(rng, "fnpure", rng.choice([16, 24, 32]))))
         for i in range(n_bad):
             gname, g = gens[i % len(gens)]
             mode = ["closure", "closure", "fn"][(i // len(gens)) % 3]
@@ -482,7 +507,9 @@ def run(ck):
         path = os.path.join(REPO, "crates/lib/mimium-test/tests/mmm", fn)
         if os.path.exists(path):
             fixture_lines.append((fn, n, exp, json.dumps({"src": open(path).read(), "n": n, "backends": "both"})))
-    model_lines = [model_line(p["case"], i % 2) for i, p in enumerate(prepared)]
+    for p in prepared:
+        p["mech"] = p["valid"] and p["f13"] and p["K"] == 1 and pure_fn(p["case"])
+    model_lines = [model_line(p["case"], i % 2, p["mech"]) for i, p in enumerate(prepared)]
 
     # ---------------- run ----------------
     t0 = time.time()
@@ -508,6 +535,7 @@ def run(ck):
     # ---------------- compare ----------------
     findings = {f["cls"]: f for f in known_findings("C11")}
     prop_fail, disagree, f13_hits, compile_fail = [], [], 0, []
+    mech_cases, mech_agree, mech_bad = 0, 0, []
     nontrivial, executed_total, ties, max_pending, f13_cases, bad_cases = 0, 0, 0, 0, 0, 0
     distinct = set()
     for i, p in enumerate(prepared):
@@ -535,6 +563,25 @@ def run(ck):
                 continue
             outv = [[fdec(h) for h in s] for s in x["out"]]
             known_here = (be == "wasm" and p["f13"] and F13_CLASS in findings)
+            # inside the known class, where the allocation-aware model (Sched/WasmAlloc.v) gives an order-independent
+            # prediction, a WASM deviation is only "known" when it is the predicted one
+            if (known_here and p["mech"] and pred and "alloc0" in pred and pred["alloc0"] == pred.get("alloc1")
+                    and pred["alloc0"][0] == "ok" and all("," not in e for e in pred["alloc0"][1].split("/"))):
+                # (at most one task due per sample in the predicted run: the heap's tie-breaking cannot matter)
+                mech_cases += 1
+                want = []
+                for e in pred["alloc0"][1].split("/")[:-1]:
+                    d = {}
+                    for z in e.split(","):
+                        if z:
+                            d[int(z)] = d.get(int(z), 0) + 1
+                    want.append(counters_of(d, fields, K))
+                got_m = [[int(v) if v == int(v) else v for v in s_] for s_ in outv]
+                if x["st"] == "ok" and got_m == want:
+                    mech_agree += 1
+                else:
+                    mech_bad.append((p, be, model_ans[i], x))
+                    known_here = False
             # --- S: the property on the implementation's own output (premise-respecting inputs) ---
             if p["valid"]:
                 why = None
@@ -587,6 +634,8 @@ def run(ck):
     ck.coverage["premise_violating_task_sets"] = bad_cases
     ck.coverage["task_sets_in_known_class_F13"] = f13_cases
     ck.coverage["wasm_failures_in_known_class_F13"] = f13_hits
+    ck.coverage["F13_mechanism_model_cases"] = mech_cases
+    ck.coverage["F13_mechanism_model_agrees"] = mech_agree
     ck.coverage["corpus_cases"] = ncorpus
     ck.coverage["repo_fixtures"] = len(fixture_lines)
     ck.coverage["model_vs_impl_disagreements"] = len(disagree)
